@@ -218,8 +218,11 @@ def witnesses(ctx):
         n += 1
         got = [[a.x, a.y, a.z] for a in shx.atoms.all_atoms if a.name == name]
         if not got or any(abs(a - b) > 1e-9 for a, b in zip(got[0], exp)):
+            # the recorded finding is exactly: the 11.25 line is not taken as an atom; 9.75 is taken as an atom with x = 9.75.  Anything else
+            # (e.g. the 9.75 atom missing from the list) is a different violation and is reported
+            recorded = (name == 'C1' and not got) or (name == 'C2' and len(got) == 1 and abs(got[0][0] - 9.75) < 1e-9 and abs(got[0][1] - 0.5) < 1e-9)
             common.add_violation(ctx, 'atom with a coded coordinate is not read as the coordinate the code denotes', {'text': text}, exp, got,
-                                 cls='coordinate_code_with_remainder_beyond_one_or_below_ten')
+                                 cls='coordinate_code_with_remainder_beyond_one_or_below_ten' if recorded else None)
     return n
 
 
